@@ -10,6 +10,7 @@ import DtailModel.Generated.Code
 import DtailModel.Lemmas.GoRT
 import DtailModel.Model.Outfile
 import DtailModel.Model.OutfileOps
+set_option autoImplicit false
 namespace Dtail.GenOutfile
 open Dtail Dtail.Go Dtail.Gen.Outfile
 
